@@ -61,6 +61,8 @@ func runC06(c *Ctx) {
 		r.Und("C06.who", "instance-floor", "", fmt.Sprintf("only %d sites found (expected >= 5: increment, two decrements, Store, two Deletes)", n))
 	}
 
+	c.ruleRegistryInserts()
+
 	// --- C06.inc / C06.replace / C06.dec on paths
 	for _, f := range p.FuncsIn(PkgRoot) {
 		if f.Parent() != nil {
@@ -592,9 +594,10 @@ func (c *Ctx) ruleCloseOnce() {
 
 func runC07(c *Ctx) {
 	p, r := c.P, c.R
-	r.Explanation = "Decides the overwrite-policy clauses structurally: both option constructors store exactly the two valid policies and reject everything else without storing (decision table over the policy value); RegisterNode cannot reach its map assignment when the EXISTING entry's policy is DenyOverwrite, the new entry carries the option's policy and, on overwrite, the old count; RegisterPipeline tests the policy of the existing entry whose key equals def.PipelineID in the graph of def.EventType, cannot reach Store when it is DenyOverwrite, and the new entry carries the option's policy; a successful call performs exactly one Store of a fresh registration whose root was linked by this very call (with C04.immutable: no in-place edits of published lists — the structural premise of 'each Send sees exactly one version'); policies live only inside the entries that removal deletes. What a concurrent Send observes during the swap is sync.Map semantics (A4)."
+	r.Explanation = "Decides the overwrite-policy clauses structurally: both option constructors store exactly the two valid policies and reject everything else without storing (decision table over the policy value); RegisterNode cannot reach its map assignment when the EXISTING entry's policy is DenyOverwrite, the new entry carries the option's policy and, on overwrite, the old count; RegisterPipeline tests the policy of the existing entry whose key equals def.PipelineID in the graph of def.EventType, cannot reach Store when it is DenyOverwrite, and the new entry carries the option's policy; a successful call performs exactly one Store of a fresh registration whose root was linked by this very call (with C04.immutable: no in-place edits of published lists — the structural premise of 'each Send sees exactly one version'); policies live only inside the entries that removal deletes. What a concurrent Send observes during the swap is sync.Map semantics (A4). C07.defaults: both policies default to AllowOverwrite and getOpts applies every non-nil option of the whole list to the one defaults-initialised struct, returning it or the option error."
 	r.NotDecided = []string{"what a concurrent Send observes while the Store happens (sync.Map semantics, A4)"}
 	tb := p.NewTerms(nil)
+	c.ruleOptionDefaults()
 	// --- C07.opts
 	for _, name := range []string{"WithPipelineRegistrationPolicy", "WithNodeRegistrationPolicy"} {
 		fn := c.Fn("C07.opts", PkgRoot, "", name)
